@@ -2,7 +2,7 @@
 //! An observer scans the sandbox at every poll of the target stream (between any two chunks).
 
 use crate::classify::{classify, variant, Class};
-use crate::engine::{block_on, Check, Outcome, Scratch, Tier};
+use crate::engine::{block_on, drain_blocking, Check, Outcome, Scratch, Tier};
 use crate::json;
 use crate::prng::{mix, Rng};
 use crate::transport::{Base, ErrKind, Event, Resp, SimTransport, Step};
@@ -118,6 +118,9 @@ enum Delivery {
     BitFlip(usize),
     Oversize(usize),
     ErrorAt(usize),
+    /// the caller abandons the operation (drops the future) when the stream is about to deliver
+    /// chunk k (k = number of chunks: after the last one, before the end of stream)
+    CancelAt(usize),
 }
 
 impl Check for C08 {
@@ -129,7 +132,7 @@ impl Check for C08 {
         "fault_enumeration"
     }
     fn rule(&self) -> String {
-        "target names over {a b . / \\ space % ~}: enumerated to length 5 (thorough: all 37448; quick: every 5th) plus seeded names to length 40; per name: size, chunking, prefix mode, pre-existing destination file are seeded; within a run EVERY failure position is enumerated (bit flip, oversize, transport error before chunk k for every k) followed by the clean delivery, and an observer scans the whole sandbox at every poll of the target stream; non-trivial = the name was accepted at load and at least one failing delivery was pulled; distinct = distinct canonical trace".into()
+        "target names over {a b . / \\ space % ~}: enumerated to length 5 (thorough: all 37448; quick: every 5th) plus seeded names to length 40; per name: size, chunking, prefix mode, pre-existing destination file are seeded; within a run EVERY failure position is enumerated (bit flip, oversize, transport error before chunk k for every k, the caller abandoning the operation before chunk k for every k) followed by the clean delivery, and an observer scans the whole sandbox at every poll of the target stream; non-trivial = the name was accepted at load and at least one failing delivery was pulled; distinct = distinct canonical trace".into()
     }
     fn assumptions(&self) -> Vec<String> {
         vec![
@@ -229,10 +232,10 @@ impl Check for C08 {
         v
     }
     fn required_faults(&self, _t: Tier) -> Vec<&'static str> {
-        vec!["corrupted_delivery", "oversize_delivery", "transport_error_at_chunk", "observation_between_chunks", "preexisting_destination", "name_with_dotdot", "absolute_name", "name_with_backslash"]
+        vec!["corrupted_delivery", "oversize_delivery", "transport_error_at_chunk", "operation_abandoned_mid_transfer", "observation_between_chunks", "preexisting_destination", "name_with_dotdot", "absolute_name", "name_with_backslash"]
     }
     fn required_probes(&self, _t: Tier) -> Vec<&'static str> {
-        vec!["saved_and_verified", "failed_attempt_left_tree_unchanged", "name_rejected_at_load", "escape_refused"]
+        vec!["saved_and_verified", "failed_attempt_left_tree_unchanged", "abandoned_attempt_left_tree_unchanged", "name_rejected_at_load", "escape_refused"]
     }
     fn sample(&self, sc: &Sc) -> Value {
         json!({"name": sc.name, "size": sc.size, "chunks": sc.chunks, "pendings": sc.pendings, "prefix_digest": sc.prefix_digest, "preexisting": sc.preexisting, "consistent": sc.consistent})
@@ -329,6 +332,9 @@ impl Check for C08 {
         };
         let observe = Arc::new(observe);
         let obs_hook = observe.clone();
+        let cancel_step: Arc<Mutex<Option<usize>>> = Arc::new(Mutex::new(None));
+        let cancel = Arc::new(tokio::sync::Notify::new());
+        let (cancel_step2, cancel2) = (cancel_step.clone(), cancel.clone());
         let transport = SimTransport::with_hook(
             move |r| match r.base {
                 Base::Metadata => meta.get(&r.rel).map_or(Resp::not_found(), |b| Resp::whole(b)),
@@ -338,6 +344,9 @@ impl Check for C08 {
                 if let Event::Poll { rel, step, .. } = ev {
                     if !rel.ends_with(".json") {
                         (*obs_hook)(&format!("poll before step {step}"));
+                        if *cancel_step2.lock().unwrap() == Some(step) {
+                            cancel2.notify_one();
+                        }
                     }
                 }
             },
@@ -423,6 +432,9 @@ impl Check for C08 {
         for k in 0..=n_chunks {
             deliveries.push(Delivery::ErrorAt(k));
         }
+        for k in 0..=n_chunks {
+            deliveries.push(Delivery::CancelAt(k));
+        }
         deliveries.push(Delivery::Clean);
 
         let mut pulled_failure = false;
@@ -440,12 +452,57 @@ impl Check for C08 {
                     steps_for(&b, None)
                 }
                 Delivery::ErrorAt(k) => steps_for(&body, Some(*k)),
+                Delivery::CancelAt(k) => {
+                    // a Pending step marks the point of abandonment: the stream reports "not ready",
+                    // the operation yields, and the caller drops it
+                    let mut st = steps_for(&body, None);
+                    let mut seen = 0;
+                    let mut at = st.len();
+                    for (i, x) in st.iter().enumerate() {
+                        if matches!(x, Step::Data(_)) {
+                            if seen == *k {
+                                at = i;
+                                break;
+                            }
+                            seen += 1;
+                        }
+                    }
+                    st.insert(at, Step::Pending);
+                    *cancel_step.lock().unwrap() = Some(at);
+                    st
+                }
             };
+            if !matches!(d, Delivery::CancelAt(_)) {
+                *cancel_step.lock().unwrap() = None;
+            }
             *script.lock().unwrap() = steps;
             let before = scan(&sbox);
             *baseline.lock().unwrap() = before.clone();
             let reqs_before = transport.requests();
-            let res = block_on(async { repo.save_target(&tn, &out, prefix).await });
+            let res = block_on(async {
+                tokio::select! {
+                    biased;
+                    () = cancel.notified() => None,
+                    r = repo.save_target(&tn, &out, prefix) => Some(r),
+                }
+            });
+            let Some(res) = res else {
+                // abandoned: let everything the operation had handed to the blocking pool finish
+                drain_blocking();
+                (*observe)("after the operation was abandoned");
+                let after = scan(&sbox);
+                o.ev(format!("{d:?} -> abandoned"));
+                o.fault("operation_abandoned_mid_transfer");
+                if files_only(&after) != files_only(&before) {
+                    o.violate(
+                        "abandoned-save-changed-files",
+                        format!("delivery {d:?}: files before {:?}, after {:?}", files_only(&before), files_only(&after)),
+                    );
+                } else {
+                    o.probe("abandoned_attempt_left_tree_unchanged");
+                }
+                continue;
+            };
             (*observe)("after return");
             let after = scan(&sbox);
             let pulled = transport.log().iter().skip(reqs_before).any(|l| l.steps_pulled > 0);
@@ -539,5 +596,6 @@ fn delivery_name(d: &Delivery) -> &'static str {
         Delivery::BitFlip(_) => "bit-flip",
         Delivery::Oversize(_) => "oversize",
         Delivery::ErrorAt(_) => "transport-error",
+        Delivery::CancelAt(_) => "abandoned",
     }
 }
